@@ -38,3 +38,6 @@ META = {
         assumptions=COMMON_ASSUME + ["a detector is applied to the first segment the client's stack delivered (<=1024 bytes); a client that sends nothing to a list whose decision needs a detector is not judged"],
     ),
 }
+
+NOT_APPLICABLE = {}
+HOOK_COMMITS = []
